@@ -59,7 +59,8 @@ def generate(seed, tier):
             "w_prior": rng.choice([0.0, 0.0, 1.0, 0.5]), "u_prior": rng.choice([0.0, 0.0, 1.0]),
             "explicit_D": rng.random() < 0.7, "sut_seed": rng.randint(0, 10**6),
             "tolerance": rng.choice([None, None, 1e-3, 0.1, 1.0]), "check_every": rng.choice([1, 2, 3, 10]),
-            "n_iter": rng.randint(2, 12 if tier == "quick" else 40)}
+            "n_iter": rng.randint(2, 12 if tier == "quick" else 40),
+            "rewire_at": rng.choice([None, None, 1, 2, 3]), "rewire_seed": rng.randint(0, 10**6)}
 
 
 # ------------------------------------------------------------------ brute force
@@ -176,11 +177,32 @@ def _check_closed_forms(model, u, w, N, D, stats, where):
     stats["closed_form_states"] = stats.get("closed_form_states", 0) + 1
 
 
-def _fit(case, n_iter):
+def _rewired_edges(case):
+    """Same number of hyperedges, same sizes, other node sets (keeps every node count and the maximum size)."""
+    r = random.Random(case.get("rewire_seed", 0))
+    N = case["N"]
+    old = [list(e) for e in case["spec"]["edges"]]
+    seen = {frozenset(e) for e in old}
+    new = []
+    for e in old:
+        cand = e
+        if r.random() < 0.6:
+            for _ in range(20):
+                c = r.sample(range(N), len(e))
+                if frozenset(c) not in seen:
+                    cand = c
+                    break
+        seen.add(frozenset(cand))
+        new.append(cand)
+    return new
+
+
+def _fit(case, n_iter, h=None):
     from hypergraphx.communities.hy_mmsbm.model import HyMMSBM
 
     N, K, D = case["N"], case["K"], case["D"]
-    h = _gen.build_hypergraph(case["spec"], weights=case["weights"], weighted=case["weighted"])
+    if h is None:
+        h = _gen.build_hypergraph(case["spec"], weights=case["weights"], weighted=case["weighted"])
     u0 = np.array(case["u"], dtype=float) if case["supply"] in ("u", "both") else None
     w0 = np.array(case["w"], dtype=float) if case["supply"] in ("w", "both") else None
     u_in = None if u0 is None else u0.copy()
@@ -209,14 +231,29 @@ def execute(case):
         prev_params = None
         fstats = {}
         head = []
+        # one Hypergraph object serves every prefix; at `rewire_at` it is rewired in place (same counts, same sizes)
+        h_shared = _gen.build_hypergraph(case["spec"], weights=case["weights"], weighted=case["weighted"])
         for it in range(1, case["n_iter"] + 1):
+            if case.get("rewire_at") == it:
+                new_edges = _rewired_edges(case)
+                for e in list(h_shared.get_edges()):
+                    h_shared.remove_edge(e)
+                for e, wt in zip(new_edges, case["weights"]):
+                    if case["weighted"]:
+                        h_shared.add_edge(tuple(e), weight=wt)
+                    else:
+                        h_shared.add_edge(tuple(e))
+                data = [(tuple(sorted(e)), (wt if case["weighted"] else 1)) for e, wt in zip(new_edges, case["weights"])]
+                prevL = None
+                prev_params = None
+                stats["rewired_objects"] = stats.get("rewired_objects", 0) + 1
             ctx = {"n_iter": it, "supply": case["supply"], "assortative": case["assortative"], "w_prior": case["w_prior"],
                    "u_prior": case["u_prior"], "explicit_D": case["explicit_D"], "tolerance": case.get("tolerance"),
                    "check_every": case.get("check_every")}
             if getattr(model if it > 1 else None, "tolerance_reached", False):
                 stats["stopped_by_tolerance"] = stats.get("stopped_by_tolerance", 0) + 1
             try:
-                model, u0, w0, u_in, w_in, fac, h = _fit(case, it)
+                model, u0, w0, u_in, w_in, fac, h = _fit(case, it, h_shared)
             except DrawBudgetExceeded as e:
                 raise Violation("C15/fit/liveness-draw-budget", {"why": str(e), **ctx})
             except Exception as e:  # noqa
